@@ -11,6 +11,7 @@ package main
 import (
 	"context"
 	"fmt"
+	"image"
 	"strconv"
 	"strings"
 	"time"
@@ -29,6 +30,7 @@ func apiCase(r *hx.Run, rng *gen.Rng) error {
 		adv |= 1<<8 | 1<<9 | 1<<10
 	}
 	fc := fakeconsole.New(10, 4, fakeconsole.FromMask(adv))
+	fc.XPix, fc.YPix = 100, 80
 	vx, err := vaxis.New(vaxis.Options{WithConsole: fc, NoSignals: true})
 	if err != nil {
 		return err
@@ -55,7 +57,7 @@ func apiCase(r *hx.Run, rng *gen.Rng) error {
 		}
 	}()
 	for i := rng.Range(3, 10); i > 0; i-- {
-		name := gen.Pick(rng, []string{"clipboard-push", "clipboard-pop", "notify", "title", "appid", "bell", "cursorpos", "qcolor", "qfg", "qbg"})
+		name := gen.Pick(rng, []string{"clipboard-push", "clipboard-pop", "notify", "title", "appid", "bell", "cursorpos", "qcolor", "qfg", "qbg", "newimage"})
 		a, b := "", ""
 		fc.Take()
 		finished := make(chan struct{})
@@ -81,6 +83,14 @@ func apiCase(r *hx.Run, rng *gen.Rng) error {
 				vx.SetAppID(a)
 			case "bell":
 				vx.Bell()
+			case "newimage":
+				im, err := vx.NewImage(image.NewRGBA(image.Rect(0, 0, 2, 2)))
+				switch {
+				case err != nil:
+					a = "none"
+				default:
+					a = strings.TrimPrefix(fmt.Sprintf("%T", im), "*vaxis.")
+				}
 			case "cursorpos":
 				vx.CursorPosition()
 			case "qcolor":
